@@ -3,11 +3,11 @@ import QuiverModel.Core.Repl.Basic
 /-
 qm_c11 — driver for M-Repl. Values are opaque tokens (atoms). Requests:
   (reset <nil-token> <nil-type-token>)                                          → state
-  (line parse-error) | (line compile-error)                     → state
-  (line no-code (x i)…)                                         → state
-  (line ran (bindings (x i)…) (appended tok…) (result tok tytok)) → state, after checking the line assumptions
+  (line parse-error) | (line compile-error m…)                  → state   (m… = modules the rejected line mentions)
+  (line no-code (bindings (x i)…) (imports m…))                 → state
+  (line ran (bindings (x i)…) (appended tok…) (result tok tytok) (imports m…)) → state, after checking the line assumptions
   (lookup x)                                                    → val <tok> | unbound
-answer `state`:  b=x:i,y:j l=tok,tok,… arg=tok ty=tytok viol=<none|…>
+answer `state`:  b=x:i,y:j l=tok,tok,… arg=tok ty=tytok mc=m,m,… viol=<none|…>
 `viol` lists violated assumptions of `C11.runLine_preserves_aligned` about the submitted line:
   old:<x>:<observed>:<predicted>   a binding below the compacted length whose index is not the one `compact` predicts
   range:<x>:<i>                    a binding index beyond compacted + appended locals
@@ -23,7 +23,8 @@ def renderState (s : Session String) (viol : List String) : String :=
   let b := ",".intercalate (s.bindings.map (fun p => s!"{p.1}:{p.2}"))
   let l := ",".intercalate s.locals
   let v := if viol.isEmpty then "none" else ";".intercalate viol
-  s!"b={b} l={l} arg={nextArgument s} ty={s.lastResultTy} viol={v}"
+  let mc := ",".intercalate s.moduleCache
+  s!"b={b} l={l} arg={nextArgument s} ty={s.lastResultTy} mc={mc} viol={v}"
 
 def parseBinding : Sx → Option (String × Nat)
   | .list [.atom x, i] => i.asNat.map (fun i => (x, i))
@@ -58,24 +59,27 @@ def c11Step (st : C11State) (req : List Sx) : C11State × String :=
   | [.list [.atom "line", .atom "parse-error"]] =>
     let s := runLine st.nil st.s .parseError
     ({ st with s := s }, renderState s [])
-  | [.list [.atom "line", .atom "compile-error"]] =>
-    let s := runLine st.nil st.s .compileError
-    ({ st with s := s }, renderState s [])
-  | [.list (.atom "line" :: .atom "no-code" :: bs)] =>
-    match parseBindings bs with
-    | some b =>
-      let s := runLine st.nil st.s (.noCode b)
+  | [.list (.atom "line" :: .atom "compile-error" :: att)] =>
+    match atoms att with
+    | some att =>
+      let s := runLine st.nil st.s (.compileError att)
       ({ st with s := s }, renderState s [])
     | none => (st, "bad-request")
+  | [.list [.atom "line", .atom "no-code", .list (.atom "bindings" :: bs), .list (.atom "imports" :: im)]] =>
+    match parseBindings bs, atoms im with
+    | some b, some im =>
+      let s := runLine st.nil st.s (.noCode b im)
+      ({ st with s := s }, renderState s [])
+    | _, _ => (st, "bad-request")
   | [.list [.atom "line", .atom "ran", .list (.atom "bindings" :: bs), .list (.atom "appended" :: app),
-            .list [.atom "result", .atom r, .atom ty]]] =>
-    match parseBindings bs, atoms app with
-    | some b, some app =>
-      let eff : LineEffect String := { bindings := b, appended := app, result := r, resultTy := ty }
+            .list [.atom "result", .atom r, .atom ty], .list (.atom "imports" :: im)]] =>
+    match parseBindings bs, atoms app, atoms im with
+    | some b, some app, some im =>
+      let eff : LineEffect String := { bindings := b, appended := app, result := r, resultTy := ty, imports := im }
       let viol := lineViolations (compact st.s) eff
       let s := runLine st.nil st.s (.ran eff)
       ({ st with s := s }, renderState s viol)
-    | _, _ => (st, "bad-request")
+    | _, _, _ => (st, "bad-request")
   | [.list [.atom "lookup", .atom x]] =>
     match lookup st.s x with
     | some v => (st, s!"val {v}")
